@@ -119,7 +119,6 @@ func exportedNameOf(f *ssa.Function) string {
 	return fname(f)
 }
 
-
 var unusedParamScope = map[string][]string{
 	"C01": {"kem/", "pke/", "hpke"},
 	"C02": {"sign/"},
